@@ -223,7 +223,14 @@ def run_history(rng: Any, mon: str, max_depth: int, length: int, apply_budget: l
             k = int(rng.integers(len(inverses)))
             inv, at_creation = inverses[k]
             trace.append('REDUCE-INVERSE')
-            red = (inv @ tiny_operator()).reduce() if rng.integers(2) else inv.reduce()
+            form = int(rng.integers(3))
+            inner = getattr(inv, 'operator', None)
+            if form == 2 and type(inner).__name__ == 'CompositionOperator':
+                # the inverse of a composite next to one of the composite's own factor OBJECTS (either side)
+                red = (inv @ inner.operands[0]).reduce() if rng.integers(2) else (inner.operands[-1] @ inv).reduce()
+                LOG.count('C19.reduce', 'next-to-own-factor')
+            else:
+                red = (inv @ tiny_operator()).reduce() if form else inv.reduce()
             found = []
             from .. import dense as _dense
             _dense.walk(red, lambda o: found.append(o) if type(o).__name__ == 'InverseOperator' else None)
